@@ -254,6 +254,8 @@ def run(repo, rep, tier):
             why = unparse(v) if v is not None else 'None'
             if v is not None and unparse(v) == 'exitcodes.CONNECTION_ERROR':
                 ok = True
+            elif isinstance(v, ast.Call) and call_name(v) == 'audit':
+                ok = True       # the result of the recursive SSH-1 retry, returned directly
             elif isinstance(v, ast.Name):
                 # must be the result of the recursive SSH-1 retry
                 defs = [d for d in walk_no_nested(au) if isinstance(d, ast.Assign) and any(unparse(t) == v.id for t in d.targets)]
